@@ -486,6 +486,11 @@ impl Session {
     /// Initializing a session is done based on the data that had arrived in the Handshake Request message,
     /// written by a remote peer on the `C1` characteristic.
     fn setup(&mut self, address: BtAddr, version: u8, mtu: u16, window_size: u8) {
+        // A handshake (re)starts the session: nothing of a previous one - pending
+        // acknowledgements, a partially received message, buffered data - may leak into it
+        self.recv_window.reset();
+        self.send_window.reset();
+
         self.address = address;
         self.version = version;
         self.mtu = mtu;
